@@ -2,7 +2,7 @@
 import vf
 
 LEDGER_TB = [
-    "hand-written ledger model coq/Model/Ledger.v of Visor.ExecuteSignedBlock (non-arbitrating node), tied on every run by harness/c01: a real visor.Visor on a bolt file executes generated histories of valid and mutated signed blocks; after EVERY op the verdict (error class) and projected state (head, checksum, sorted unspent set, stored header and signature) are compared with the model's",
+    "hand-written ledger model coq/Model/Ledger.v of Visor.ExecuteSignedBlock (non-arbitrating node), tied on every run by harness/c01: a real visor.Visor on a bolt file executes generated histories of valid and mutated signed blocks; after EVERY op the verdict (error class) and projected state are compared with the model's — C01/C02: processTransactions / ProcessBlock verdict for the spend, creation and coin-sum checks and the sorted unspent set (id, coins, hours); C04: signature / genesis / header / checksum / duplicate-hash verdict and the stored head (hash, seq, time, re-read header hash, stored signature validity); lemma exec_block_pieces proves the model's step is exactly the sequence of these pieces",
     "translated mathutil.AddUint64 / UxOut.CoinHours (Gen/Mathutil.v, Gen/CoinHours.v, regenerated from /repo on every run; specification lemma AddUint64_spec from C31)",
     "hashes and signatures are data: ids assigned injectively by the harness (one table per history), signature-validity bits computed by the implementation's cipher package; theorem hypothesis ids_consistent (SHA-256 collision freedom + the id table) evaluated on every history (premises_ok)",
     "harness: block/transaction generators, error-to-enum mapping (by error type / fixed message), Coq-term printer with sharing of identical terms, state digest; boltdb atomic Update is modelled as atomicity and checked by digest equality after rejected blocks",
